@@ -313,5 +313,11 @@ pub fn random_value(rng: &mut crate::rng::Rng, ty: IntTy) -> i128 {
 /// KF-C03-1: `v * c` with a negative *literal* constant `c`, |c| < bits, and v * |c| == 2^(bits-1):
 /// garble panics with Overflow although the product MIN is representable.
 pub fn kf_negconst_mul(ty: IntTy, c: i128, v: i128) -> bool {
-    ty.signed && c < 0 && -c < ty.bits as i128 && v.checked_mul(-c) == Some(1i128 << (ty.bits - 1))
+    kf_negconst_mul_lit(ty, c, v, ty.bits as i128)
+}
+
+/// As above; `lit_bits` is the width of the literal's own suffix type (32 for a suffix-free literal):
+/// the repeated-addition lowering is used for |c| < lit_bits.
+pub fn kf_negconst_mul_lit(ty: IntTy, c: i128, v: i128, lit_bits: i128) -> bool {
+    ty.signed && c < 0 && -c < lit_bits && v.checked_mul(-c) == Some(1i128 << (ty.bits - 1))
 }
